@@ -297,8 +297,9 @@ class tN2kGroupFunctionHandler {
      */
     void MatchRequestField(const char * FieldVal, const char * MatchVal, bool &Match, tN2kGroupFunctionParameterErrorCode &ErrorCode)
     {
-      Match&=(strcmp(FieldVal,MatchVal)==0);
-      ErrorCode = ( Match ? N2kgfpec_Acknowledge : N2kgfpec_RequestOrCommandParameterOutOfRange );
+      bool FieldMatch=(strcmp(FieldVal,MatchVal)==0);
+      Match&=FieldMatch;
+      ErrorCode = ( FieldMatch ? N2kgfpec_Acknowledge : N2kgfpec_RequestOrCommandParameterOutOfRange );
     }
 
   private:
